@@ -191,6 +191,8 @@ func CorpusHistories(scratch string, names map[string]bool) ([]*History, []strin
 			case 5:
 				s.scriptEvidence = [][]byte{s.Val(0).Addr}
 			case 6:
+				// two more voters of the same open proposal named in ONE block: both cuts stay in its record
+				s.scriptEvidence = [][]byte{s.Val(1).Addr, s.Val(2).Addr}
 				if len(s.H.WatchH) > 0 {
 					return []*TxSpec{s.TxVote(s.Val(1), s.H.WatchH[len(s.H.WatchH)-1], 0)}
 				}
@@ -534,6 +536,31 @@ func CorpusHistories(scratch string, names map[string]bool) ([]*History, []strin
 			}
 			for i := range g.Holders {
 				g.Holders[i].Balance = rigo(5000)
+			}
+		}},
+		// an unbonding stake is locked until the END of the block of its refund height: a transfer in that very
+		// block that could only be paid with the stake still locked is refused
+		{"spend-in-the-maturity-block", 1, 2, 8, func(s *Sim, h int64) []*TxSpec {
+			u := s.User(0)
+			switch h {
+			case 2:
+				return []*TxSpec{s.TxStake(u, s.Val(0).Addr, 190)}
+			case 3:
+				for _, st := range s.stakes {
+					if string(st.From) == string(u.Addr) {
+						return []*TxSpec{s.TxUnstake(u, st.To, st.Hash)}
+					}
+				}
+			case 5, 6: // refund height = 3 + 2: in block 5 the 190 units are still locked, in block 6 they are back
+				t := s.TxTransfer(u, s.User(1).Addr, rigo(100))
+				t.Note = fmt.Sprintf("script-transfer-needing-the-unbonding-stake-at-%d", h)
+				return []*TxSpec{t}
+			}
+			return nil
+		}, func(g *Genesis) {
+			easyParams(g)
+			for i := range g.Holders {
+				g.Holders[i].Balance = rigo(200)
 			}
 		}},
 		// stake amounts that are not a whole number of power units: refused for a delegation as for a
